@@ -195,8 +195,28 @@ fn run_schedule(threads: usize, allocs: usize, start_id: u32, start_serial: u64,
 }
 
 fn check_pids(ctx: &Ctx, pids: &[(usize, u32, u32, u32)], creation: u32, origin: &str, extra: serde_json::Value) -> bool {
+    check_pids_from(ctx, pids, creation, origin, extra, None)
+}
+
+/// `start`: the counter position the allocator was preset to. An allocator that reaches
+/// (start_id, start_serial) has already handed out every id below start_id with that serial, so a
+/// pid <id.start_serial> with id < start_id is a re-issue even if this run sees it only once.
+fn check_pids_from(ctx: &Ctx, pids: &[(usize, u32, u32, u32)], creation: u32, origin: &str, extra: serde_json::Value, start: Option<(u32, u64)>) -> bool {
     let mut seen: HashSet<(u32, u32)> = HashSet::new();
     let mut ok = true;
+    if let Some((sid, sser)) = start {
+        let era = (sser % (1u64 << 32)) as u32;
+        for (w, id, serial, _) in pids {
+            if *serial == era && *id < sid {
+                ctx.viol(
+                    &format!("C16:reissued-pid:{}", origin),
+                    "a pid number of the current serial era was handed out again instead of the serial advancing",
+                    json!({"pid": format!("<{}.{}>", id, serial), "worker": w, "counters_started_at": format!("next_id={}, serial={}", sid, sser), "all": pids.iter().map(|p| format!("w{}:<{}.{}>", p.0, p.1, p.2)).collect::<Vec<_>>(), "detail": extra}),
+                );
+                ok = false;
+            }
+        }
+    }
     for (w, id, serial, cr) in pids {
         if !seen.insert((*id, *serial)) {
             ctx.viol(
@@ -255,7 +275,7 @@ fn sequential(ctx: &Ctx) {
         let pids: Vec<(usize, u32, u32, u32)> = (0..12).map(|_| { let p = alloc.allocate().unwrap(); (0, p.id, p.serial, p.creation) }).collect();
         ctx.eval(12);
         ctx.class(&format!("sequential/start-id{}-serial{}", sid, if sser > 1 << 31 { "near-wrap" } else { "small" }));
-        check_pids(ctx, &pids, 99, "sequential-near-wrap", json!({"start_id": sid, "start_serial": sser}));
+        check_pids_from(ctx, &pids, 99, "sequential-near-wrap", json!({"start_id": sid, "start_serial": sser}), Some((sid, sser)));
     }
 }
 
@@ -289,7 +309,7 @@ fn enumerated(ctx: &Ctx, rng: &mut Rng) {
                 if r.pids.len() != threads * allocs {
                     ctx.viol("C16:allocation-lost", "a worker did not get its pid", json!({"got": r.pids.len(), "trace": tr}));
                 }
-                check_pids(ctx, &r.pids, 42, "interleaving", json!({"threads": threads, "allocs_each": allocs, "start_id": sid, "start_serial": sser, "schedule": tr}));
+                check_pids_from(ctx, &r.pids, 42, "interleaving", json!({"threads": threads, "allocs_each": allocs, "start_id": sid, "start_serial": sser, "schedule": tr}), Some((*sid, *sser)));
                 if n == 1 && *sid == MAX_ID && threads == 2 && allocs == 1 {
                     ctx.sample(json!({"threads": threads, "allocs_each": allocs, "start_id": sid, "schedule": tr, "pids": r.pids.iter().map(|p| format!("w{}:<{}.{}>", p.0, p.1, p.2)).collect::<Vec<_>>()}));
                 }
@@ -324,7 +344,7 @@ fn enumerated(ctx: &Ctx, rng: &mut Rng) {
         }
         distinct_traces.insert(crate::rng::fnv(format!("{:?}", r.trace).as_bytes()));
         let tr: Vec<String> = r.trace.iter().map(|(w, p)| format!("{}:{}", w, p.trim_start_matches("pid_alloc:"))).collect();
-        check_pids(ctx, &r.pids, 42, "interleaving", json!({"threads": threads, "allocs_each": 2, "start_id": sid, "start_serial": sser, "schedule": tr}));
+        check_pids_from(ctx, &r.pids, 42, "interleaving", json!({"threads": threads, "allocs_each": 2, "start_id": sid, "start_serial": sser, "schedule": tr}), Some((sid, sser)));
     }
     for h in distinct_traces.iter().take(200_000) {
         ctx.class_hash(*h);
@@ -385,7 +405,7 @@ fn stress(ctx: &Ctx, rng: &mut Rng) {
         }
         ctx.eval(pids.len() as u64);
         ctx.class(&format!("stress/{}threads/{}each/start{}", threads, per, sid));
-        check_pids(ctx, &pids, 11, "stress", json!({"round": r, "threads": threads, "each": per, "start_id": sid, "start_serial": sser}));
+        check_pids_from(ctx, &pids, 11, "stress", json!({"round": r, "threads": threads, "each": per, "start_id": sid, "start_serial": sser}), Some((sid, sser)));
     }
     edp_client::verif::set_callback(None);
 }
